@@ -49,7 +49,10 @@ def run_case(doc_text, ops, mode, collect=None):
     if not view.valid or view.core is None:
         return [], {"skip": "not-editable"}
     model = A.Model(view)
-    src = nima.parse(doc_text) if mode == "same-object" else None
+    try:
+        src = nima.parse(doc_text) if mode == "same-object" else None
+    except Exception as e:  # noqa: BLE001 - a valid, editable document that the library cannot even parse
+        return [(f"document-refused:{type(e).__name__}|{shape_sig(view)}", {"exc": E.exc_sig(e), "msg": str(e)[:120], "doc": doc_text[:400]})], {"steps": 0, "ok_steps": 0, "refused": 1, "classes": ["document-refused"]}
     cur = doc_text
     shape = shape_sig(view)
     fails = []
@@ -118,6 +121,8 @@ def gen_case(n, kw=None, scoped_bias=SCOPED_BIAS, max_ops=8, single_line=False, 
         scoped_bias = 0.0
     if flags.get("no_scoped_in_paren") and "paren" in view.kinds:
         scoped_bias = 0.0
+    if "alias" in view.kinds:
+        scoped_bias = 0.0  # which let `@` means for a set reached through a name is not stated: unscoped edits only
     # the op generator needs the evolving model: apply the model as we go (refused ops leave it unchanged)
     for _ in range(r.randint(1, max_ops)):
         op, path, value, cls = E.gen_op(r, model, scoped_bias=scoped_bias, single_line=single_line, **(op_kw or {}))
@@ -131,6 +136,13 @@ def gen_case(n, kw=None, scoped_bias=SCOPED_BIAS, max_ops=8, single_line=False, 
             model.apply(op, path, value)
         except (A.Refuse, A.Unspecified):
             pass
+    if model.layers and scoped_bias > 0 and r.random() < 0.2 and not (flags.get("no_drop_only_layer") and len(model.layers) == 1):
+        # directed tail: empty the innermost let layer binding by binding, so that its `let … in` wrapper is dropped
+        layer = model.layers[-1]
+        names = [e["path"] for e in layer if e["inh"] is None]
+        if names and len(names) <= 3 and all(e["inh"] is None for e in layer):
+            for pth in names:
+                ops.append(("rm", E.enc(pth, 1), None, "existing-leaf@1"))
     return text, ops, mode
 
 
